@@ -46,6 +46,15 @@ func TestC03Proc(t *testing.T) {
 			}
 		}
 	}
+	// the application had preset Cmd.Stdin to a reader that stays open and silent: the death is still reported
+	for _, proto := range []string{"netrpc", "grpc"} {
+		cells = append(cells, Cell{
+			Name:   fmt.Sprintf("%s killed after connecting, Cmd.Stdin preset to an idle pipe", proto),
+			Plugin: PluginConf{CookieKey: cookieKey, CookieValue: cookieVal, Legacy: 1, LegacyProto: proto, GRPCServer: true, TLS: "none"},
+			Host:   HostConf{Allowed: []string{"netrpc", "grpc"}, TLS: "none", Launch: "cmd", Legacy: 1, SkipHostEnv: true, PresetStdin: "idle-pipe"},
+			Ops:    []string{"new", "start", "client", "dispense", "set:5", "sigkillplugin", "exitedin:0", "get:@0", "ping", "kill:0"},
+		})
+	}
 	// the plugin dies between Start and the first Client() call; the host may have asked for blocking dials
 	// (GRPCDialOptions: grpc.WithBlock()): Client() still returns an error in bounded time and nothing else blocks behind it
 	for _, proto := range []string{"netrpc", "grpc"} {
